@@ -13,4 +13,5 @@ pub mod simcard;
 pub mod simdisk;
 pub mod spimon;
 pub mod util;
+pub mod watchdog;
 pub mod world;
